@@ -151,7 +151,12 @@ func runC13Case(w *caseWriter, id string, d pkgDesc, st *c13Stats, rng *rand.Ran
 	defer removeExtraFiles(d.Files)
 	doc := d.YAML
 	fresh := func() (*nfpm.Config, error) {
-		c, err := nfpm.ParseWithEnvMapping(strings.NewReader(doc), func(string) string { return "" })
+		// the signing passphrases come from the environment, the general and the format-specific ones at once: the
+		// effective settings of a format keep ITS passphrase whatever override blocks there are
+		c, err := nfpm.ParseWithEnvMapping(strings.NewReader(doc), func(k string) string {
+			return map[string]string{"NFPM_PASSPHRASE": "the general passphrase", "NFPM_DEB_PASSPHRASE": "the deb passphrase",
+				"NFPM_RPM_PASSPHRASE": "the rpm passphrase", "NFPM_APK_PASSPHRASE": "the apk passphrase"}[k]
+		})
 		return &c, err
 	}
 	cfg, err := fresh()
